@@ -44,8 +44,8 @@ PROPS = {
              "reference semantics' prediction. Recorded runs are validated by the trace specification Exec_Trace (same "
              '(block, prior) => same digest).',
         note='Index plugins stat and addrfeeindex additionally enabled in half of the runs (the executor-side MVCC stays off: with it the genesis version record is stored as an empty value and block 1 cannot be executed at all); goroutine schedules are varied only '
-             'through GOMAXPROCS, repetitions and prior activity (no scheduler control); signature verification of '
-             'types/block.go is exercised by the connected blocks only (self-produced blocks skip it).',
+             'through GOMAXPROCS, repetitions and prior activity (no scheduler control); the parallel signature '
+             'verification of types/block.go runs for the connected blocks of the peer-delivery legs only.',
     ),
 }
 
@@ -107,6 +107,10 @@ def _c11(ctx, b, q):
             ctx.replay(b, bs2, opts=dict(plugins='default' if sd % 2 else 'all', salt=sd), par=6, timeout=14400)
         # a fresh node for every behaviour (no state shared with earlier behaviours)
         ctx.replay(b, bs[:60], opts=dict(plugins='default', fresh=1), par=4, timeout=14400, count=False)
+    # larger alphabet (simulation only): 2 executor names sharing a local prefix, 4 state + 3 local keys,
+    # <= 6 items, groups <= 4, <= 5+3 operations, 3 blocks
+    bl = ctx.tlc_sim('Exec_MC', 'Exec_C11_GenL.cfg', num=60 if q else 600, depth=140, keep_init=True, timeout=7200)
+    ctx.replay(b, bl, opts=dict(plugins='default', salt=1, peer=1), par=6, timeout=14400)
     _replay_selftest(ctx, b, bs[:40], dict(plugins='default'))
 
 
@@ -129,10 +133,13 @@ def _c12(ctx, b, q):
         first = first or allb
         rows += len(allb)
         oks += sum(1 for x in allb if x['steps'][-1]['ret'].get('tys') == ['ok'])
+        if q:
+            # quick tier: every second row of each table (offset by the seed); thorough: every row under 4 spellings
+            allb = [x for i, x in enumerate(allb) if i % 2 == ctx.seed % 2]
         for salt in range(0, 1 if q else 4):
             ctx.replay(b, allb, opts=dict(para=para, salt=salt + ctx.seed % 7), par=6, timeout=14400, count=(salt == 0))
     ctx.extra['exhaustive_tables'] = dict(rows=rows, rows_predicted_ExecOk=oks, cfgs='Exec_C12_All{S,Sp,L,Lp}.cfg',
-                                          note='exhaustive over the abstract rows; the byte spelling of each class is sampled per salt')
+                                          note='thorough: every abstract row; quick: every second row; the byte spelling of each class is sampled per salt')
     n = 150 if q else 1200
     for cfg in ('Exec_C12_Gen.cfg', 'Exec_C12_Genp.cfg'):
         bs = ctx.tlc_sim('Exec_MC', cfg, num=n, depth=60, keep_init=True, timeout=7200)
@@ -196,7 +203,8 @@ def _c13(ctx, b, q):
     ctx.rule = ('behaviours = TLC simulation of Exec.tla with Run / Activity steps: every block is executed under several '
                 'conditions (process fresh|long-running x GOMAXPROCS 1|2|16, 5 repetitions each) interleaved with process-local '
                 'activity, then connected; non-trivial = the same (prior chain, block) term executed under >= 2 differing conditions; '
-                'recorded random scenarios (larger blocks, coins / none / user.* transactions, plugins on and off) validated by Exec_Trace')
+                'recorded random scenarios (larger blocks, coins / none / user.* transactions, plugins on and off, blocks delivered as peer '
+                'blocks so that the parallel signature verification runs) validated by Exec_Trace')
     ctx.assumptions += ['goroutine schedules varied only through GOMAXPROCS, repetition and prior activity',
                         'blocks are rebuilt byte-identically in every process (fixed nonces, deterministic signatures)',
                         'executor-side MVCC plugin off (it cannot execute block 1 at all)']
@@ -208,7 +216,7 @@ def _c13(ctx, b, q):
     n = 16 if q else 100
     bs = ctx.tlc_sim('Exec_MC', 'Exec_C13_Gen.cfg', num=n, depth=45, keep_init=True, timeout=7200)
     half = len(bs) // 2
-    ctx.replay(b, bs[:half], opts=dict(plugins='all', fresh=1, reps=5), par=4, timeout=28800)
+    ctx.replay(b, bs[:half], opts=dict(plugins='all', fresh=1, reps=5, peer=1), par=4, timeout=28800)
     ctx.replay(b, bs[half:], opts=dict(plugins='default', fresh=1, reps=5), par=4, timeout=28800)
     _validate_det(ctx, b, dict(n=3 if q else 14, reps=5, salt=ctx.seed % 97))
     _replay_selftest(ctx, b, bs[:10], dict(plugins='default', fresh=1, reps=2))
